@@ -35,6 +35,10 @@ def gen_cases(tier, seed):
         # very regular lattices: on some of them the LU factor of the (singular) Neumann Laplacian is EXACTLY singular and the
         # container refuses; whatever it does, the operators it holds are the operators of the mesh
         cases.append({"mesh": {"kind": "lattice", "nx": nx_, "ny": ny_, "hy": hy_}, "seed": int(rng.integers(1 << 30)), "cost": 1})
+    for j in range(2 if tier == "quick" else 6):
+        # explicit meshes some of whose dual edge lengths are EXACTLY zero (right-angled triangles): a zero weight is a weight
+        cases.append({"mesh": {"kind": "explicit", "base": [{"kind": "grid", "nx": 6, "ny": 5, "scale": 1.0}, {"kind": "delaunay", "n": 64}][j % 2], "decades": 2,
+                               "zero_duals": float([0.1, 0.25][j % 2]), "seed": int(rng.integers(1 << 30))}, "seed": int(rng.integers(1 << 30)), "cost": 1})
     for j in range(3 if tier == "quick" else 8):
         # meshes at a tiny ABSOLUTE scale (coordinates ~1e-8: a length is a length, whatever its numerical size)
         cases.append({"mesh": {"kind": ["hex", "delaunay", "hex"][j % 3], "nx": 7, "ny": 6, "n": 64, "jitter": 0.1, "scale": float([1.2e-7, 3e-9, 5e-8][j % 3]), "seed": int(rng.integers(1 << 30))},
@@ -344,18 +348,77 @@ def run_case(spec):
                 if note("ref_entrywise", dd, 1e-12 * abs(want).max()):
                     viol("container_operator_ne_reference", {"operator": name, "sparse_solver": solver_kind.name, "max_abs_diff": dd})
             A = rng.normal(size=(m, 2))
-            mo.set_link_exponents(A)
-            mo.set_link_exponents(0.5 * A)
-            Lp = sp.csr_matrix(mo.psi_laplacian)
             fx = fixed if (fix_psi and fixed is not None) else None
-            Lp_ref = fv.laplacian_fast(n, em.edges, em.edge_lengths, em.dual_edge_lengths, a, em.directions, 0.5 * A, fx)
-            if note("ref_entrywise", fv.max_abs_diff(Lp, Lp_ref), 1e-11 * abs(Lp_ref).max()):
-                viol("container_psi_laplacian_ne_reference", {"sparse_solver": solver_kind.name, "fixed_sites": fixed is not None, "fix_psi": fix_psi})
+            for nth, Ak in enumerate((A, 0.5 * A, np.zeros_like(A), rng.normal(size=(m, 2)))):
+                mo.set_link_exponents(Ak)
+                Lp = sp.csr_matrix(mo.psi_laplacian)
+                Lp_ref = fv.laplacian_fast(n, em.edges, em.edge_lengths, em.dual_edge_lengths, a, em.directions, Ak, fx)
+                if note("ref_entrywise", fv.max_abs_diff(Lp, Lp_ref), 1e-11 * abs(Lp_ref).max()):
+                    viol("container_psi_laplacian_ne_reference", {"sparse_solver": solver_kind.name, "fixed_sites": fixed is not None, "fix_psi": fix_psi, "refresh_number": nth})
+                    break
+                if fx is not None:
+                    # Hermitian on the free sites in the area-weighted inner product
+                    free = np.setdiff1d(np.arange(n), fx)
+                    MLf = (sp.diags(a) @ Lp).toarray()[np.ix_(free, free)]
+                    hh = float(np.abs(MLf - MLf.conj().T).max())
+                    if note("live_covariant_hermitian", hh, 1e-12 * max(float(np.abs(MLf).max()), 1e-300)):
+                        viol("live_covariant_laplacian_not_hermitian", {"asym": hh, "block": "free sites", "refresh_number": nth})
+                        break
             if fx is None:
                 ML = (sp.diags(a) @ Lp).toarray()
                 hh = float(np.abs(ML - ML.conj().T).max())
                 if note("live_covariant_hermitian", hh, 1e-12 * float(np.abs(ML).max())):
                     viol("live_covariant_laplacian_not_hermitian", {"asym": hh, "fixed_sites_unpinned": fixed is not None})
+
+    # 9d. explicit positive edge weights handed to the builders (`weights=`): the operators of THOSE weights
+    for dec in (1, 4):
+        w = 10.0 ** rng.uniform(-dec, dec, m)
+        for A in (None, rng.normal(size=(m, 2))):
+            Lw, _ = ops.build_laplacian(mesh, link_exponents=A, weights=w)
+            Lw = sp.csr_matrix(Lw)
+            Lw_ref = fv.laplacian_fast(n, em.edges, em.edge_lengths, w * em.edge_lengths, a, em.directions, A)
+            C["explicit_weight_checks"] = C.get("explicit_weight_checks", 0) + 1
+            if note("ref_entrywise", fv.max_abs_diff(Lw, Lw_ref), 1e-11 * abs(Lw_ref).max()):
+                viol("laplacian_with_explicit_weights_ne_reference", {"decades": dec, "covariant": A is not None, "max_abs_diff": fv.max_abs_diff(Lw, Lw_ref)})
+            if A is None:
+                r_ = float(np.abs(Lw @ np.ones(n)).max())
+                if note("nullspace_constants", r_, 1e-10 * abs(Lw).max()):
+                    viol("constants_not_annihilated", {"with": "explicit weights", "max_row_sum": r_})
+                Mw = (sp.diags(a) @ Lw).toarray()
+                if note("symmetric_nsd", float(np.abs(Mw - Mw.conj().T).max()), 1e-12 * float(np.abs(Mw).max())):
+                    viol("weighted_laplacian_not_symmetric", {"with": "explicit weights"})
+        gw = 10.0 ** rng.uniform(-dec, dec, m)
+        Gw = sp.csr_matrix(ops.build_gradient(mesh, weights=gw))
+        Gw_ref = sp.csr_matrix(sp.diags(gw * em.edge_lengths) @ fv.gradient_fast(n, em.edges, em.edge_lengths, em.directions, None))
+        if note("ref_entrywise", fv.max_abs_diff(Gw, Gw_ref), 1e-11 * abs(Gw_ref).max()):
+            viol("gradient_with_explicit_weights_ne_reference", {"decades": dec})
+
+    # 9e. the order in which a triangle's vertices are listed is not geometry: the same triangulation listed clockwise has the same cell areas and dual edge lengths
+    if spec["mesh"]["kind"] != "explicit" and mesh.voronoi_polygons is not None:
+        from tdgl.finite_volume.mesh import Mesh as _Mesh
+
+        el0 = np.asarray(mesh.elements)
+        # (consistently, that is: a listing in which neighbouring triangles run in opposite senses is not accepted by
+        # from_triangulation - IndexError or silently wrong dual lengths, DESIGN 6b - and is not part of the workload)
+        for how in ("all_clockwise",):
+            el = el0[:, ::-1].copy()
+            try:
+                m2 = _Mesh.from_triangulation(np.array(mesh.sites, copy=True), el)
+            except ValueError as exc:
+                if "Malformed Voronoi" in str(exc):
+                    continue
+                raise
+            C["orientation_checks"] = C.get("orientation_checks", 0) + 1
+            key0 = {tuple(sorted(e)): k for k, e in enumerate(np.asarray(em.edges).tolist())}
+            e2 = np.asarray(m2.edge_mesh.edges)
+            idx = np.array([key0.get(tuple(sorted(e)), -1) for e in e2.tolist()])
+            if (idx < 0).any() or len(e2) != m:
+                viol("listing_order_changes_edges", {"how": how})
+                continue
+            dd = float(np.abs(np.asarray(m2.edge_mesh.dual_edge_lengths) - np.asarray(em.dual_edge_lengths)[idx]).max())
+            da = float(np.abs(np.asarray(m2.areas) - a).max())
+            if note("orientation_independent", dd, 1e-9 * float(np.abs(em.dual_edge_lengths).max())) or note("orientation_independent", da, 1e-9 * float(a.max())):
+                viol("listing_order_changes_geometry", {"how": how, "max_dual_length_change": dd, "max_area_change": da})
 
     # 9c. no builder modified the mesh
     now = {"sites": mesh.sites, "areas": mesh.areas, "edges": em.edges, "edge_lengths": em.edge_lengths, "dual_edge_lengths": em.dual_edge_lengths,
